@@ -47,8 +47,8 @@ ASSUMPTIONS = [
     "so 'last' refers to the last visit the Data object holds; with drop_full_nan=False the visit is kept and 'last' is NaN for every feature.",
     "Constant model: the accepted setting value is the enum's 'last-known' (the docstrings say 'last_known', which the enum refuses - documentation slip, not judged).",
     "Constant comparisons: |observed - expected| <= 2e-6 * max|value of that individual and feature| (+1e-40 for float32 underflow; float32 storage, the mean is accumulated in float32); NaN must match NaN.",
-    "Requested ages are non-empty lists/arrays/tuples (or a MultiIndex without repeated pairs); an empty list and, for the constant model, a bare scalar "
-    "are excluded by construction (see shard_edges: shape (0,) / TypeError) - the statement is vacuous for zero ages.",
+    "Requested ages are non-empty lists/arrays/tuples, a bare scalar for a single age (accepted by both models since /repo 50978f9), or a MultiIndex without "
+    "repeated pairs; an empty list is excluded by construction (see shard_edges: shape (0,) / ValueError) - the statement is vacuous for zero ages.",
     "LME reference data are the table values rounded like the reader (ages to 6 digits) and cast to float32 then float64; ages_mean / ages_std are the "
     "population mean / std-dev (numpy default, ddof=0) of the retained ages, compared with rtol 2e-5.",
     "LME vs statsmodels: judged only when the harness refit raises no convergence/boundary/singularity/runtime warning and its unscaled random-effects "
